@@ -36,8 +36,8 @@ ASSUMPTIONS = ['the request is delivered completely (in-memory socket): blocking
                'request line, unsupported method) only need to be syntactically valid',
                'delivery after each request is done synchronously through the real '
                '_deliver_indication_to_callbacks (threading aspects are C16)']
-BOUNDS = {'quick': {'deviation_budget': 2, 'history_length': 2},
-          'thorough': {'deviation_budget': 3, 'history_length': 3}}
+BOUNDS = {'quick': {'deviation_budget': 2, 'history_length': 2, 'queue_history_length': 6},
+          'thorough': {'deviation_budget': 3, 'history_length': 3, 'queue_history_length': 8}}
 NSHARDS = 64
 
 DATE = 'Thu, 01 Jan 1970 00:00:00 GMT'
@@ -94,10 +94,44 @@ BODY_ATTR_VALUES = ['', 'x', '1.0', '2.0', '2.1', '3.0', '1', '9.9', 'ExportIndi
                     'a"b', "a'b", 'a<b&c>d', ']]>', '"\'<&>']
 BODY_TEXT_VALUES = ['', 'x', '\x00', 'é', '<INSTANCE CLASSNAME="X"/>', '<', '€\U0001F600']
 BODY_BYTES = [b'\x00', b'<', b'\xff']
+def _other_documents():
+    """complete, valid CIM-XML documents that are not export requests: every other top-level shape
+    the tuple parser accepts (declarations, operation requests and responses, export responses,
+    multi requests) - the listener must answer each of them with an error response"""
+    X = _cim_xml
+    inst = pywbem.CIMInstance('C', {'p': 'v'})
+    qd = pywbem.CIMQualifierDeclaration('Q', 'string')
+    cls = pywbem.CIMClass('C')
+    lnp = X.LOCALNAMESPACEPATH([X.NAMESPACE('root')])
+    imcall = X.IMETHODCALL('EnumerateClassNames', lnp, [])
+    expcall = X.EXPMETHODCALL('ExportIndication', [X.EXPPARAMVALUE('NewIndication', inst.tocimxml())])
+    docs = [
+        X.CIM(X.DECLARATION([X.DECLGROUP([X.VALUE_OBJECT(inst.tocimxml())])]), '2.0', '2.0'),
+        X.CIM(X.DECLARATION([X.DECLGROUP([qd.tocimxml(), X.VALUE_OBJECT(cls.tocimxml())])]), '2.0', '2.0'),
+        X.CIM(X.MESSAGE(X.SIMPLEREQ(imcall), '1', '1.0'), '2.0', '2.0'),
+        X.CIM(X.MESSAGE(X.SIMPLERSP(X.IMETHODRESPONSE('EnumerateClassNames', [])), '1', '1.0'), '2.0', '2.0'),
+        X.CIM(X.MESSAGE(X.SIMPLEEXPRSP(X.EXPMETHODRESPONSE('ExportIndication')), '1', '1.0'), '2.0', '2.0'),
+        X.CIM(X.MESSAGE(X.MULTIEXPREQ([X.SIMPLEEXPREQ(expcall), X.SIMPLEEXPREQ(expcall)]), '1', '1.0'), '2.0', '2.0'),
+        X.CIM(X.MESSAGE(X.MULTIREQ([X.SIMPLEREQ(imcall), X.SIMPLEREQ(imcall)]), '1', '1.0'), '2.0', '2.0'),
+    ]
+    out = []
+    for d in docs:
+        try:
+            out.append(d.toxml().encode('utf-8'))
+        except Exception as exc:   # noqa
+            raise HarnessError('cannot build document: %r' % (exc,))
+    return out
+
+
+OTHER_DOCUMENTS = _other_documents()
+
+
 WHOLE_BODIES = [b'', b' ', b'not xml', b'<CIM/>', b'\xef\xbb\xbf' + BODY, BODY + b'trailing', BODY + BODY,
                 BODY.decode().encode('utf-16'), b'<?xml version="1.0"?>\n' + BODY,
                 b'<?xml version="1.0" encoding="latin-1"?>' + BODY,
-                b'<!DOCTYPE x [<!ENTITY a "aaaa">]><CIM>&a;</CIM>']
+                b'<!DOCTYPE x [<!ENTITY a "aaaa">]><CIM>&a;</CIM>'] + OTHER_DOCUMENTS
+
+
 
 
 def body_deviations():
@@ -473,6 +507,42 @@ def histories(tier):
                 yield list(h), maxq, drain
 
 
+def queue_histories(tier):
+    """sequences over {valid request, invalid request, drain the queue} with a bounded queue and no
+    automatic draining: the queue stays full over consecutive refusals"""
+    n = BOUNDS[tier]['queue_history_length']
+    for k in range(1, n + 1):
+        for h in itertools.product('vxd', repeat=k):
+            for maxq in (1, 2):
+                yield ''.join(h), maxq
+
+
+def check_queue_history(hist, maxq, acc):
+    world = World(maxq)
+    case = dict(check='queue-history', history=hist, maxq=maxq)
+    acked = refused = 0
+    for ev in hist:
+        if ev == 'd':
+            world.drain()
+            continue
+        spec = {} if ev == 'v' else {'method': 'GET'}
+        out, exc = world.request(build_request(spec), drain=False)
+        o, _ = classify(out, exc)
+        if o == 'pywbem:200:success':
+            acked += 1
+        elif ev == 'v':
+            refused += 1
+        for what, exp, obs in judge_response(out, exc, spec):
+            acc.violation(dict(check='queue-history', what=what), case, exp, obs)
+    world.drain()
+    if len(world.log) != acked:
+        acc.violation(dict(check='queue-history',
+                           what='acknowledged-%s-delivered' % ('more-than' if acked > len(world.log) else 'fewer-than')),
+                      case, acked, len(world.log))
+    acc.case(('qhist', hist, maxq), outcome='queue-history:acked=%d refused=%d' % (acked, min(refused, 3)),
+             calls=len(hist) + 1)
+
+
 def check_history(hist, maxq, drain, acc):
     world = World(maxq)
     case = dict(check='history', history=[REPRESENTATIVE[i] for i in hist], maxq=maxq, drain=drain)
@@ -498,7 +568,8 @@ def check_history(hist, maxq, drain, acc):
 
 def plan(tier, seed):
     return [dict(check='request', part=i, of=NSHARDS) for i in range(NSHARDS)] + \
-           [dict(check='history', part=i, of=16) for i in range(16)]
+           [dict(check='history', part=i, of=16) for i in range(16)] + \
+           [dict(check='queue-history', part=i, of=8) for i in range(8)]
 
 
 def run_shard(shard, tier):
@@ -510,6 +581,10 @@ def run_shard(shard, tier):
         for i, s in enumerate(specs(tier)):
             if i % shard['of'] == shard['part']:
                 check_request(s, acc)
+    elif shard['check'] == 'queue-history':
+        for i, (h, maxq) in enumerate(queue_histories(tier)):
+            if i % shard['of'] == shard['part']:
+                check_queue_history(h, maxq, acc)
     else:
         for i, (h, maxq, drain) in enumerate(histories(tier)):
             if i % shard['of'] == shard['part']:
@@ -524,6 +599,8 @@ def replay(case, tier):
     acc = Acc()
     if case['check'] == 'request':
         check_request(case['spec'], acc)
+    elif case['check'] == 'queue-history':
+        check_queue_history(case['history'], case['maxq'], acc)
     else:
         hist = [REPRESENTATIVE.index(s) for s in case['history']]
         check_history(hist, case['maxq'], case['drain'], acc)
